@@ -60,6 +60,9 @@ def _grid(shape, rng, cap, horizon, opts):
     names.append(("preshut", 0))
     axes.append(opts.get("xshut", [False]))
     names.append(("xshut", 0))
+    # the first job that nobody requires ends in CancelledError on its own
+    axes.append(opts.get("selfc", [False]))
+    names.append(("selfc", 0))
     # clean-ups that wait for a sibling's cancellation: between the first two entry jobs of
     # every scheduler that has two ("pair": one way, "mutual": both ways)
     axes.append(opts.get("cwait", [None]))
@@ -75,6 +78,7 @@ def _grid(shape, rng, cap, horizon, opts):
         ucancel = -1
         preshut = False
         xshut = False
+        selfc = False
         cwait = [0] * n
         for (name, i), val in zip(names, choice):
             if name == "jf":
@@ -87,6 +91,8 @@ def _grid(shape, rng, cap, horizon, opts):
                 preshut = val
             elif name == "xshut":
                 xshut = val
+            elif name == "selfc":
+                selfc = val
             elif name == "cwait":
                 if val:
                     for s in scheds:
@@ -104,6 +110,11 @@ def _grid(shape, rng, cap, horizon, opts):
                 if kw[key][i] is None:
                     kw[key][i] = dflt
         out = ["any" if kind[i] == "job" else "ok" for i in range(n)]
+        if selfc:
+            required = {r for rq in req for r in rq}
+            free = [i for i in jobs if (i + 1) not in required]
+            if free:
+                out[free[0]] = "selfc"
         return mkcfg(kind, parent, req, out=out, pure=pure, horizon=horizon, ucancel=ucancel,
                      preshut=preshut, xshut=xshut, cwait=cwait, **kw)
 
@@ -147,7 +158,7 @@ def family(name, tier, seed):
                  jobflags=[(False, False), (True, False), (False, True)],
                  pure=[False, True]))
         add([flat([[], [], [2, 3]]), flat([[], [2], [2], [3, 4]])], 200 if quick else 2000, 3,
-            dict(win=[0, 1, 2, 3], tmo=[-1, 0, 1, 2], cdur=[0, 1],
+            dict(win=[0, 1, 2, 3], tmo=[-1, 0, 1, 2], cdur=[0, 1], selfc=[False, False, True],
                  jobflags=[(False, False), (True, False), (False, True), (True, True)]))
         desc = "all DAGs on <=%d jobs under one scheduler x flags x windows x timeouts" % (3 if quick else 4)
     elif name == "nested":
@@ -165,7 +176,7 @@ def family(name, tier, seed):
                  jobflags=[(False, False), (True, False), (False, True)],
                  schedflags=[(False, False), (True, False), (False, True), (True, True)],
                  pure=[False, True], ucancel=[-1, -1, 1, 2], preshut=[False, False, False, True],
-                 xshut=[False, True], cout=["cancelled", "cancelled", "exc"],
+                 xshut=[False, True], cout=["cancelled", "cancelled", "exc"], selfc=[False, False, True],
                  cwait=[None, None, "pair"]))
         desc = "6 nested shapes (depth <= 3) x flags x windows x timeouts x handler/clean-up durations"
     elif name == "shutdown":
